@@ -64,7 +64,9 @@ func c18Values(md int) {
 	host := c18Host()
 	port, pv := c18Num("port", md, false)
 	tmo, tv := c18Num("tmo", md, false)
-	s := ps + " -h " + host + " -p " + port + " -t " + tmo
+	// tokens may be separated by more than one blank, or by a tab
+	sep := []string{" ", "  ", "\t"}[vapi.Choice("sep", 3)]
+	s := ps + " -h " + host + sep + "-p " + port + " -t " + tmo
 	var gv, qv, wv, vv, ev int64 = 0, 0, -1, 0, 0
 	switch vapi.Choice("extra", 6) {
 	case 0:
